@@ -31,7 +31,32 @@ UNDECIDED = [
 TRUSTED = ["CPython ast", "asa.cfg", "integer-difference-logic small-model bound (asa.kernel.decide)"]
 
 
-def _fresh_or_fitting(cfg: CFG, func: ast.AST, add: ast.Call, var: str) -> Tuple[bool, str]:
+def _first_fit_helper(repo, rel: str, call: ast.Call, var: str) -> bool:
+    """ the called module-level helper returns a row only under the fact <row>.can_fit(<the area>), else None """
+    try:
+        helper = repo.func(rel, call.func.id)  # type: ignore[attr-defined]
+    except (AnalysisError, KeyError):
+        return False
+    params = [a.arg for a in helper.args.args]
+    area = [p for p, a in zip(params, call.args) if txt(a) == var]
+    if len(area) != 1:
+        return False
+    hcfg = CFG(helper)
+    rets = [r for r in walk_local(helper) if isinstance(r, ast.Return)]
+    rows = 0
+    for ret in rets:
+        if ret.value is None or isinstance(ret.value, ast.Constant) and ret.value.value is None:
+            continue
+        if not isinstance(ret.value, ast.Name):
+            return False
+        if not any(truth and isinstance(e, ast.Call) and last_attr(e) == "can_fit" and txt(e.func.value) == ret.value.id  # type: ignore
+                   and e.args and txt(e.args[0]) == area[0] for e, truth in path_facts(hcfg, ret, fresh_only=True)):
+            return False
+        rows += 1
+    return rows > 0
+
+
+def _fresh_or_fitting(cfg: CFG, func: ast.AST, add: ast.Call, var: str, repo=None, rel: str = "") -> Tuple[bool, str]:
     """ is the row that receives the area either proven to fit it or freshly created? """
     recv = add.func.value  # type: ignore[attr-defined]
     # (i) `row.add(area)` under the fact row.can_fit(area)
@@ -61,6 +86,9 @@ def _fresh_or_fitting(cfg: CFG, func: ast.AST, add: ast.Call, var: str) -> Tuple
                             for t in value.args[0].generators[0].ifs) \
                     and txt(value.args[0].elt) == txt(value.args[0].generators[0].target):
                 verdicts.append("first row that can fit")
+            elif isinstance(value, ast.Call) and isinstance(value.func, ast.Name) and repo is not None \
+                    and _first_fit_helper(repo, rel, value, var):
+                verdicts.append(f"{value.func.id}: first row that can fit, if any")
             else:
                 return False, f"`{recv.id}` may be a row not tested with can_fit"
         return bool(verdicts), "; ".join(verdicts)
@@ -88,7 +116,7 @@ def r19_1(ctx: Ctx) -> None:
     ctx.ob("R19.1", AP, outer, qual, "at most once", bool(adds) and not twice,
            "after an area has been added to a row no second add is reachable within the same iteration "
            "(the first fitting row ends the search)", form=f"{len(adds)} add sites")
-    verdicts = [_fresh_or_fitting(cfg, func, a, var) for a in adds]
+    verdicts = [_fresh_or_fitting(cfg, func, a, var, ctx.repo, AP) for a in adds]
     ctx.ob("R19.1", AP, adds[0] if adds else outer, qual, "fit test guards the add", bool(adds) and all(v for v, _ in verdicts),
            "an area is added to an existing row only if that row can fit it (or to a freshly created row)",
            form="; ".join(w for _, w in verdicts))
@@ -128,18 +156,32 @@ def r19_1(ctx: Ctx) -> None:
     extra_names = {txt(n.targets[0]) for n in walk_local(helper) if isinstance(n, ast.Assign) and isinstance(n.value, ast.Call)
                    and call_name(n.value) == "adjust_cross_origin_area"}
     appends = [c for c in calls(helper) if txt(c.func) == "converted.append"]
-    final = [a for a in appends if cfg.postdominates(cfg.n(a), cfg.entry)]
-    ok = len(final) == 1 and txt(final[0].args[0]) in area_names
+
+    def has_extra(expr: ast.AST, truth: bool) -> bool:
+        """ the fact says that the split produced a second half """
+        if txt(expr) in extra_names:
+            return truth
+        if isinstance(expr, ast.Compare) and len(expr.ops) == 1 and txt(expr.left) in extra_names \
+                and isinstance(expr.comparators[0], ast.Constant) and expr.comparators[0].value is None:
+            return isinstance(expr.ops[0], ast.IsNot) and truth or isinstance(expr.ops[0], ast.Is) and not truth
+        return False
+    splits = [a for a in appends if any(has_extra(e, t) for e, t in path_facts(cfg, a))]
+    final = [a for a in appends if a not in splits]
+    final_nodes = {cfg.n(a) for a in final}
+    # every path through the helper passes exactly one of the final appends
+    missed = cfg.exit in cfg.reach([cfg.entry], avoid=final_nodes)
+    doubled = any(other in cfg.reach([a]) for a in final_nodes for other in final_nodes)
+    ok = bool(final) and not missed and not doubled and all(txt(a.args[0]) in area_names for a in final)
     ctx.ob("R19.1", AP, final[0] if final else helper, "build_area_rows.add_area_from_feature", "area appended once", ok,
-           "every feature contributes its area exactly once, unconditionally, at the end of the helper", form="")
-    splits = [a for a in appends if a not in final]
+           "every feature contributes its area exactly once on every path through the helper", form=f"{len(final)} final append(s)")
     ok = len(splits) <= 1
     for a in splits:
-        guarded = any(truth and txt(e) in extra_names for e, truth in path_facts(cfg, a))
-        block = getattr(getattr(a, "_parent", None), "_parent", helper)
-        takes_over = any(isinstance(st, ast.Assign) and txt(st.targets[0]) in area_names and txt(st.value) in extra_names
-                         for st in getattr(block, "body", []))
-        ok = ok and guarded and takes_over and txt(a.args[0]) in area_names
+        takeovers = {cfg.n(st) for st in walk_local(helper) if isinstance(st, ast.Assign) and txt(st.targets[0]) in area_names
+                     and txt(st.value) in extra_names}
+        # after the first half has been appended, the second half takes the area's place before the final append
+        takes_over = bool(takeovers) and not (final_nodes & cfg.reach([cfg.n(a)], avoid=takeovers)) \
+            and bool(final_nodes & cfg.reach([cfg.n(a)]))
+        ok = ok and takes_over and txt(a.args[0]) in area_names
     ctx.ob("R19.1", AP, splits[0] if splits else helper, "build_area_rows.add_area_from_feature", "split halves once each", ok,
            "when an area had to be split, the first half is appended and the second half takes the place of the area for the "
            "final append (two linked halves, once each)", form="")
@@ -375,13 +417,50 @@ def r19_5(ctx: Ctx) -> None:
                "the start of a gene is moved past the record length exactly when the gene lies in the post-origin part of the "
                "region (a gene that itself spans the origin starts before the origin and keeps its start)", form=form)
     # the end is moved whenever the start is, and additionally for genes that span the origin themselves
-    start_nodes = {cfg.n(n) for n in start_shifts}
-    paired = all(any(cfg.dominates(cfg.n(s), cfg.n(e)) or cfg.dominates(cfg.n(e), cfg.n(s)) for e in end_shifts) for s in start_shifts)
-    alone = [e for e in end_shifts if not any(cfg.dominates(s, cfg.n(e)) or cfg.dominates(cfg.n(e), s) for s in start_nodes)]
-    ok = paired and len(alone) == 1 and f"{feat}.crosses_origin()" in {txt(inline_reaching(cfg, x, x, keep={feat}))
-                                                                      for x, t in path_facts(cfg, alone[0]) if t} if alone else False
+    from ..flow import iteration_conditions
+    from ..astutil import clone
+    head = cfg.n(loops[0])
+    end_nodes = {cfg.n(e) for e in end_shifts}
+    twice = any(other in cfg.reach([e], avoid=[head]) for e in end_nodes for other in end_nodes)
+    post_origin = "f_s < f_e and f_e <= r_e"
+
+    class Coordinates(ast.NodeTransformer):
+        def visit_Call(self, call):  # noqa: N802
+            text = txt(call)
+            if text == f"{feat}.crosses_origin()":
+                return parse("f_e < f_s")
+            if text == "region.crosses_origin()":
+                return parse("r_e < r_s")
+            if last_attr(call) == "is_contained_by" and txt(call.func.value) == feat and call.args \
+                    and txt(call.args[0]) in ("region.location.parts[-1]", "region.location.parts[1]"):
+                return parse(post_origin)
+            return self.generic_visit(call)
+    ok, form = False, ""
+    try:
+        paths = []
+        for e in end_shifts:
+            for conds in iteration_conditions(cfg, loops[0], e):
+                terms = []
+                for expr, truth in conds:
+                    full = Coordinates().visit(inline_reaching(cfg, expr, expr, keep={feat}))
+
+                    class Named(ast.NodeTransformer):
+                        def generic_visit(self, node):  # noqa: N802
+                            if isinstance(node, ast.expr) and txt(node) in mapping:
+                                return ast.Name(id=mapping[txt(node)], ctx=ast.Load())
+                            return super().generic_visit(node)
+                    full = ast.fix_missing_locations(Named().visit(full))
+                    terms.append(full if truth else ast.UnaryOp(op=ast.Not(), operand=full))
+                paths.append(ast.BoolOp(op=ast.And(), values=terms) if len(terms) > 1 else terms[0] if terms else ast.Constant(value=True))
+        shifted = ast.fix_missing_locations(ast.BoolOp(op=ast.Or(), values=paths) if len(paths) > 1 else paths[0])
+        same, cex, _ = decide(shifted, parse(f"({post_origin}) or f_e < f_s"), pre=pre)
+        ok = same and not twice
+        form = f"end moved when {txt(shifted)[:200]}" + (f"; differs at {cex}" if cex else "") + ("; moved twice on a path" if twice else "")
+    except (OutsideFragment, ValueError) as err:
+        ctx.cannot("R19.5", JS, end_shifts[0], qual, "end shifts", str(err))
+        return
     ctx.ob("R19.5", JS, end_shifts[0], qual, "end shifts", bool(ok),
-           "the end is moved together with the start, and on its own exactly for genes that span the origin", form="")
+           "the end is moved together with the start, and on its own exactly for genes that span the origin", form=form)
 
 
 REGION = "antismash/common/secmet/features/region/structures.py"
